@@ -57,6 +57,13 @@ def check(run, driver):
         hs = H(X + t, k)
         if abs(hs - h) > TOL:
             run.prop_fail("estimate changes under translation of the sample", case, {**sig, "clause": "translation"}, {"base": h, "shifted": hs, "shift": t})
+        # "arbitrary shifts": far from the origin (coordinates such as 4 194 304.37 with unit spread); exact power-of-two offsets, and
+        # the un-shifted sample is taken as (X + t) - t so that both samples are exactly representable translates of each other
+        tb = 2.0 ** rng.integers(12, 25, size=d) * rng.choice([-1.0, 1.0], size=d) * 2.0 ** round(math.log2(scale))
+        Xs = X + tb; Xq = Xs - tb
+        hq, hb = H(Xq, k), H(Xs, k)
+        if abs(hb - hq) > TOL:
+            run.prop_fail("estimate changes under translation of the sample", {**case, "X": Xq}, {**sig, "clause": "translation", "shift": "large"}, {"base": hq, "shifted": hb, "shift": tb})
         Q = ortho_group.rvs(d, random_state=int(rng.integers(0, 2**31))) if d > 1 else np.array([[-1.0]])
         hr = H(X @ Q, k)
         if abs(hr - h) > TOL:
@@ -144,7 +151,8 @@ def check(run, driver):
             for i, p in enumerate(parts):
                 a, b = rec["l2"][i]
                 kth = p["nbrs"][k - 1]
-                ok = ok and np.array_equal(a, X[i]) and np.array_equal(b, X[kth]) and abs(float(((a - b) ** 2).sum()) - float(unval(p["rho2"]))) <= 1e-12 * max(1.0, float(unval(p["rho2"])))
+                # (the arguments of l2dist may be translates of the rows: only their difference matters to the estimate)
+                ok = ok and np.allclose(a - b, X[i] - X[kth], rtol=0, atol=1e-12 * max(1.0, float(np.abs(X).max()))) and abs(float(((a - b) ** 2).sum()) - float(unval(p["rho2"]))) <= 1e-12 * max(1.0, float(unval(p["rho2"])))
                 Y = np.array([[float(unval(v)) for v in row] for row in p["Y"]]).reshape(k + 1, -1)
                 Z = np.array([[float(unval(v)) for v in row] for row in p["Z"]]).reshape(k, -1)
                 ok = ok and rec["svd"][i].shape == Y.shape and np.allclose(rec["svd"][i], Y, rtol=0, atol=1e-12)
@@ -175,6 +183,8 @@ def check(run, driver):
         k = int(rng.integers(1, 5)); N = int(rng.integers(k + 3, 36))
         metric = ["euclidean", "euclidean", "cityblock", "chebyshev"][it % 4]
         W = rng.standard_normal((N, dx + dy + dz)) @ (rng.standard_normal((dx + dy + dz, dx + dy + dz)) * 0.5 + np.eye(dx + dy + dz))
+        if it % 3 == 2:      # samples far from the origin (exact power-of-two offsets, 1e6..1e7 spacings away): distances must come from differences
+            W = W + 2.0 ** rng.integers(20, 25, size=W.shape[1]) * rng.choice([-1.0, 1.0], size=W.shape[1])
         X, Y, Z = W[:, :dx], W[:, dx:dx + dy], W[:, dx + dy:]
         R = lambda A: ref_entropy(A, k, metric=metric, detail=True)
         parts_mi = [R(X), R(Y), R(np.hstack((X, Y)))]
@@ -198,9 +208,10 @@ def check(run, driver):
         from common import Infra
         raise Infra("more than 5% of the cases were skipped by the margin filters")
     run.extra["explanation"] = (
-        "Partial: the kNN bookkeeping and the scaling/translation laws of the distance term are proved in Lean (CEProofs/C12.lean) with the "
-        "SVD-based local correction entering as a parameter whose similarity invariance is a stated hypothesis (geom_laws_partial: Mathlib has no "
-        "packaged singular-value invariance); the published formula is evaluated by an independent implementation and the four laws are checked "
-        "directly on the real function with the deltas the theorems predict. LAPACK's SVD is runtime behaviour outside the model."
+        "Lean: the four laws are proved for the mathematical estimator (CEProofs/C12Svd.lean geom_laws_real: the local correction is defined with "
+        "Mathlib's singular values and the basis-free quadratic form; no hypothesis about the correction), and the executable rational spectral "
+        "invariants used by the spectral tie are proved to be those objects (CEProofs/C12Spectral.lean). The published formula is evaluated by an "
+        "independent implementation and the four laws are checked directly on the real function with the deltas the theorems predict. LAPACK's "
+        "floating-point SVD, log/sqrt rounding and the rank-deficient regime k < d are outside the theorems and decided by these ties."
     )
     run.assumptions += ["tie-free samples; margin filters counted in `skipped`", "the independent reference uses its own one-sided Jacobi SVD with a relative rank threshold 1e-9 on the singular values"]
